@@ -110,7 +110,9 @@ def body_collection(case, rec):
 def conversion_cases(draw):
     return {"photon": draw(frames(hi=1e6)), "qe_arg": draw(st.one_of(st.none(), st.sampled_from([0.0, 1.0, 0.5]), st.floats(0.0, 1.0))),
             "qe_det": draw(st.one_of(st.sampled_from([0.0, 1.0, 0.5]), st.floats(0.0, 1.0))),
-            "binomial": draw(st.booleans()), "nw": draw(st.sampled_from([0, 0, 2, 3])), "seed": draw(st.one_of(st.none(), st.integers(0, 2**31))),
+            "binomial": draw(st.booleans()), "nw": draw(st.sampled_from([0, 0, 2, 3, 4, 5])),
+            # spacing of the wavelength grid: regular, or generated unequal intervals (the container accepts any increasing coordinate)
+            "wl_steps": draw(st.one_of(st.none(), st.lists(st.sampled_from([1.0, 5.0, 20.0, 50.0, 130.0]), min_size=4, max_size=4))), "seed": draw(st.one_of(st.none(), st.integers(0, 2**31))),
             "det": draw(st.sampled_from(["CCD", "CMOS", "MKID", "APD"])), "prior_charge": draw(st.booleans())}
 
 
@@ -126,7 +128,10 @@ def body_conversion(case, rec):
         ph = np.minimum(ph, 1e9)
     nw = case["nw"]
     if nw:
-        wl = [400.0 + 50.0 * i for i in range(nw)]
+        steps = case.get("wl_steps") or [50.0] * 4
+        wl = [400.0 + sum(steps[:i]) for i in range(nw)]
+        if case.get("wl_steps") and len(set(steps[:nw - 1])) > 1:
+            rec.cls("3d:irregular_wavelength_grid")
         cube = np.stack([ph * (i + 1) / nw for i in range(nw)])
         det.photon.array_3d = xr.DataArray(cube, dims=["wavelength", "y", "x"], coords={"wavelength": wl})
         # trapezoidal integral over wavelength, computed by the harness
